@@ -9,9 +9,10 @@ import vlib, refs, pairs
 
 _UH = {}
 _FALLBACK = None
+_PLATEAU = None
 SIZES = {  # (quick, thorough) number of pairs per stratum
     "uniform": (120, 2500), "threshold": (260, 6000), "grey": (80, 3000), "named": (60, 2000),
-    "nearbg": (80, 2000), "hair": (60, 1200), "witness": (900, 20000), "witness_neargrey": (900, 20000), "witness_translucent": (900, 20000), "spell": (130, 3000), "isolum": (150, 3000), "hairline": (70, 1500), "corner": (120, 2500), "zeroone": (40, 400), "edge": (120, 2500), "ultrahair": (90, 1500), "neargrey": (90, 1500), "informal": (60, 1000), "razor": (150, 3000), "extreme": (60, 1500), "hslbg": (90, 2000), "witness_edge": (900, 20000), "history": (150, 3000), "witness_hsl": (900, 20000),
+    "nearbg": (80, 2000), "hair": (60, 1200), "witness": (900, 20000), "witness_neargrey": (900, 20000), "witness_special": (900, 20000), "witness_plateau": (900, 20000), "witness_translucent": (900, 20000), "spell": (130, 3000), "isolum": (150, 3000), "hairline": (70, 1500), "corner": (120, 2500), "zeroone": (40, 400), "edge": (120, 2500), "ultrahair": (90, 1500), "neargrey": (90, 1500), "informal": (60, 1000), "razor": (150, 3000), "extreme": (60, 1500), "hslbg": (90, 2000), "witness_edge": (900, 20000), "history": (150, 3000), "witness_hsl": (900, 20000),
 }
 
 
@@ -35,7 +36,7 @@ def strata(pid, t, rnd):
          "C02": dict(uniform=.7, threshold=1, grey=.7, named=.5, nearbg=.7, hair=1.5, spell=.6, isolum=4, hairline=1, corner=3, zeroone=1, ultrahair=.5, neargrey=1.5, informal=1.5, razor=1.4, extreme=.5, hslbg=1),
          "C16": dict(uniform=.5, threshold=1.2, grey=.5, named=.3, nearbg=2.0, hair=.3, spell=.2, isolum=.5, edge=2, corner=.3, history=1),
          "C04": dict(uniform=1, threshold=1, grey=.5, named=.3, nearbg=1.5, hair=.2, spell=.3, isolum=.5),
-         "C03": dict(witness=1, witness_neargrey=.25, witness_translucent=.2, witness_hsl=.25, extreme=3, witness_edge=.6)}[pid]
+         "C03": dict(witness=1, witness_neargrey=.6, witness_translucent=.2, witness_hsl=.25, extreme=3, witness_edge=.6, witness_special=.5, witness_plateau=.2)}[pid]
     for name, scale in w.items():
         n = n_of(name, t, scale)
         for k in range(n):
@@ -109,12 +110,17 @@ def strata(pid, t, rnd):
                 add(txt if txt is not None else c, bgc, large, label)
                 if txt is not None:
                     specs[-1]["comp"] = dict(pairs.LAST_COMP[0])      # the pair must be the composite over ITS OWN background
-            elif name in ("witness_neargrey", "witness_translucent"):
+            elif name in ("witness_neargrey", "witness_translucent", "witness_special"):
                 vr = bool(rnd.getrandbits(1))
                 tq = pairs.REQ[(large, vr)]
                 for _try in range(60):
-                    if name == "witness_neargrey":
-                        c = pairs.neargrey(rnd)
+                    if name in ("witness_neargrey", "witness_special"):
+                        # near-greys and faintly tinted colours (up to 9 levels apart); or colours whose OKLCH hue / chroma sits
+                        # on a numerically special value (the 0/360 wrap, the quadrant boundaries, a tiny chroma)
+                        c = pairs.special_colour(rnd, "hue_wrap" if k % 2 else None) if name == "witness_special" else pairs.neargrey(rnd)
+                        if name == "witness_neargrey" and k % 3 == 0:
+                            g_ = rnd.randrange(12, 244)
+                            c = tuple(min(255, max(0, g_ + rnd.randint(-5, 5))) for _ in range(3))
                         # a background against which this near-grey sits 0-6 % below the requirement
                         lt = refs.wcag_lum(c)
                         want = tq * rnd.uniform(0.94, 1.0)
@@ -124,6 +130,12 @@ def strata(pid, t, rnd):
                         g = min(range(256), key=lambda v: abs(refs._LIN[v] - lb))
                         bgc = (g, g, g)
                         if tq * 0.93 <= refs.wcag_ratio(c, bgc) < tq:
+                            if k % 2 == 0 and _try < 50:
+                                # every other pair: only HARD witnesses - the closest colour that clears the margin is itself more than
+                                # dE 1.05 away (the search has to walk through most of its tolerance schedule to get there)
+                                w_ = pairs.witness_scan(c, bgc, tq)
+                                if not (isinstance(w_, tuple) and w_[1] >= 10500):
+                                    continue
                             add(c, bgc, large, witness=True, runs=[(m, v2) for v2 in (True, False) for m in (0, 1, 2)])
                             break
                     else:
@@ -160,6 +172,13 @@ def strata(pid, t, rnd):
                 a, b = pairs.near_threshold(rnd, tq, (0.0, 0.07))
                 txt = pairs.spell(a, "hslfn", rnd)          # whole degrees and percentages: denotes a colour next to a
                 add(txt, b, large, "hslfn", witness=True, runs=[(m, v2) for v2 in (True, False) for m in (0, 1, 2)])
+            elif name == "witness_plateau":
+                global _PLATEAU
+                if _PLATEAU is None:
+                    _PLATEAU = pairs.plateau_pairs(rnd, 40000 if t == "quick" else 400000)
+                if _PLATEAU:
+                    c, bgc, lg, vr = _PLATEAU[k % len(_PLATEAU)]
+                    add(c, bgc, lg, witness=True, runs=[(m, v2) for v2 in (vr, not vr) for m in (0, 1, 2)])
             elif name == "history":
                 # the pair's runs come after a short history of relaxed-mode calls that needed the fallback options (selected
                 # by scanning the implementation; the verdict on the pair's own runs is TLC's): "asking for less never fails"
